@@ -26,7 +26,6 @@ def run(cmd, cwd=None, env=None, timeout=1800):
 
 
 def failing_tests(root):
-    rc, out = run([PY, "-m", "pytest", "-q", "-p", "no:cacheprovider", "polliwog", "-x", "--co", "-q"], cwd=root)
     rc, out = run([PY, "-m", "pytest", "-q", "-p", "no:cacheprovider", "polliwog", "-rf"], cwd=root)
     fails = sorted(set(re.findall(r"^FAILED (\S+)", out, flags=re.M)))
     summary = [l for l in out.strip().split("\n") if " passed" in l or " failed" in l][-1:]
